@@ -153,6 +153,11 @@ def gen_response(rng, allow=None, position='any'):
         if framing == 'te+cl':
             fields.append(('Content-Length', str(rng.choice([0, 1, len(coded) + 5, 99999]))))
         payload, boundaries = chunk_encode(rng, coded, chunk_style)
+    elif framing == 'badcl':
+        # a Content-Length that is no length ("-1" is what some servers send for "unknown"): the body ends with the connection
+        fields.append(('Content-Length', rng.choice(['-1', '-1', '-1', '-%d' % max(1, len(coded)), 'abc', '1.5', '12abc'])))
+        payload = coded
+        then = 'eof'
     elif framing == 'close':
         payload = coded
         then = 'eof'
